@@ -286,6 +286,22 @@ pub fn run(run: &Run) {
             run.eval_one("route", &Case { cfg, perm_loggers: vec![3, 1, 4, 0, 2], perm_appenders: vec![2, 0, 3, 1], targets, failing: vec![], prior_panics: 0, via_root_mut: None }, &check);
         }
     }
+    if run.worker.0 == 2 % run.worker.1 {
+        // very deep nesting: a logger d components down (its grandparent configured too, its parent implied)
+        for d in [64usize, 127, 128, 129, 255, 256, 257, 258, 300, 1000, 4097] {
+            let comp = |i: usize| ["a", "b", "ab", "m"][i % 4];
+            let path = |k: usize| (0..k).map(comp).collect::<Vec<_>>().join("::");
+            let lg = |name: String, level: u8, additive: bool, app: &str| crate::model::route::LLogger { name, level, additive, appenders: vec![app.to_string()] };
+            let cfg = LCfg {
+                appenders: cfgtree::APPENDERS[..3].iter().map(|s| s.to_string()).collect(),
+                root_level: 2,
+                root_appenders: vec!["A2".to_string()],
+                loggers: vec![lg(path(d), 4, false, "A0"), lg(path(d - 2), 1, true, "A1"), lg(format!("{}::leaf", path(d)), 5, true, "A1")],
+            };
+            let targets = vec![path(d), format!("{}::x", path(d)), path(d - 1), path(d - 2), format!("{}::leaf", path(d)), format!("{}::leaf::y::z", path(d)), path(d + 1), path(d - 3)];
+            run.eval_one("route", &Case { cfg, perm_loggers: vec![2, 0, 1], perm_appenders: vec![1, 2, 0], targets, failing: vec![], prior_panics: 0, via_root_mut: None }, &check);
+        }
+    }
     let n = run.tier.pick(3_000, 200_000);
     run.search("route", n, strategy(), &check);
 }
@@ -304,7 +320,7 @@ pub fn replay(part: &str, case: serde_json::Value) -> Option<CaseResult> {
 pub fn meta() -> EvidenceMeta {
     EvidenceMeta {
         level: "exploration",
-        rule: "cases = generated configurations (cfgtree: <=8 loggers over the component alphabet {a,b,ab,aa,ba,é}, built with descendant / skipped-level / textual-sibling / leading-'::' biases, 1-5 capture appenders, repeats allowed) x 2-6 targets derived from the configuration x 5 levels, each also under a permuted declaration order; oracle = independent component-wise route() model; Probe records carry the name of a configured logger as their module path (it must not matter); in a quarter of the cases the root level is set through Config::root_mut() after build. Lists reach the builders through a mix of singular and bulk calls; 10% of the cases start after 1-11 caught appender panics on the same thread (through another logger); per case one appender logs a nested record from inside append and the nested record must be routed once per delivery of the outer one. A fixed list of look-alike sibling names (published collisions of FNV-1a 64/32, FNV-1, Java hashCode, djb2, CRC-32; anagrams; names equal after case folding, normalisation, trimming) is routed as well. non-trivial = >=2 loggers and a probe whose effective logger is non-root and reached through an additive=false logger, an implied intermediate or next to a textual-prefix sibling; distinct = FNV hash of the whole case".into(),
+        rule: "cases = generated configurations (cfgtree: <=8 loggers over the component alphabet {a,b,ab,aa,ba,é}, built with descendant / skipped-level / textual-sibling / leading-'::' biases, 1-5 capture appenders, repeats allowed) x 2-6 targets derived from the configuration x 5 levels, each also under a permuted declaration order; oracle = independent component-wise route() model; Probe records carry the name of a configured logger as their module path (it must not matter); in a quarter of the cases the root level is set through Config::root_mut() after build. Lists reach the builders through a mix of singular and bulk calls; 10% of the cases start after 1-11 caught appender panics on the same thread (through another logger); per case one appender logs a nested record from inside append and the nested record must be routed once per delivery of the outer one. Fixed configurations with loggers 64-4097 components deep. A fixed list of look-alike sibling names (published collisions of FNV-1a 64/32, FNV-1, Java hashCode, djb2, CRC-32; anagrams; names equal after case folding, normalisation, trimming) is routed as well. non-trivial = >=2 loggers and a probe whose effective logger is non-root and reached through an additive=false logger, an implied intermediate or next to a textual-prefix sibling; distinct = FNV hash of the whole case".into(),
         assumptions: vec!["appenders are harness Append implementations; real appenders are covered by C14".into()],
         mutants_caught: vec![],
     }
